@@ -163,6 +163,7 @@ def run(ctx, res):
         _errors(res, f, ev, liberr, OKV, FAILV)
         _frees(res, f, ev, OKV, FAILV)
     _lz4_prefix(ctx, res)
+    _inflate_growth(ctx, res)
 
 
 LIB_COMPRESSORS = {"LZ4_compress_default": (1, 3), "LZ4_compress_HC": (1, 3), "ZSTD_compress": (0, 1),
@@ -428,3 +429,55 @@ def _lz4_prefix(ctx, res):
         good = good and c is not None and LT not in c
         res.check(good, "C15.R4", site(f, "prefix"), "size read at +0, payload from +4 with size-4 bytes, capacity = decoded size, input >= 4 bytes",
                   "lz4 decompressor reads its framing differently from the compressor", f.loc(f.body), p.describe(f))
+
+
+def _inflate_growth(ctx, res):
+    """R7: when the zlib output buffer is enlarged, inflate is told exactly the room that was added, at the old end."""
+    prog, cg = ctx.prog, ctx.cg
+    f = prog.need("_mtbl_decompress_zlib", U)
+    ev = APE.run(prog, cg, f, bound=1, opaque_calls=("my_realloc",))
+    res.floor("C15.R7", 1)
+    n = 0
+    for p in ev.paths:
+        evs = [e for e in p.events if e.kind != "branch"]
+        for i, e in enumerate(evs):
+            if e.kind != "call" or e.a not in ("my_realloc", "realloc"):
+                continue
+            R = APE.vstr(e.c)
+            NEW = APE.vstr(e.b[1])
+            nxt = None
+            avail = None
+            for x in evs[i + 1:]:
+                if x.kind == "call" and x.a in ("inflate", "my_realloc", "realloc"):
+                    break
+                if x.kind == "store" and x.a.endswith(".next_out"):
+                    nxt = APE.vstr(x.b)
+                if x.kind == "store" and x.a.endswith(".avail_out"):
+                    avail = APE.vstr(x.b)
+            if nxt is None or avail is None:
+                if p.end == "cut":
+                    continue
+                res.bad("C15.R7", site(f, "grow"), "after enlarging the output buffer next_out/avail_out are not both re-pointed", f.loc(e.node), p.describe(f))
+                continue
+            n += 1
+            m = re.match(r"^\((.*)\+(.*)\)$", nxt)
+            OLD = None
+            if nxt.startswith("(" + R + "+"):
+                OLD = nxt[len(R) + 2:-1]
+            if OLD is None:
+                res.bad("C15.R7", site(f, "grow"), "after realloc next_out is %s, not (new buffer + old size)" % nxt, f.loc(e.node), p.describe(f))
+                continue
+            if NEW in ("(%s*#2)" % OLD, "(#2*%s)" % OLD):
+                room = OLD
+            elif NEW.startswith("(" + OLD + "+") and NEW.endswith(")"):
+                room = NEW[len(OLD) + 2:-1]
+            elif APE.split_off(("s", NEW))[0] == APE.split_off(("s", OLD))[0]:
+                room = "#%d" % (APE.split_off(("s", NEW))[1] - APE.split_off(("s", OLD))[1])
+            else:
+                raise BrokenAnalysis("_mtbl_decompress_zlib: growth %s of %s not recognised" % (NEW, OLD))
+            res.check(avail == room, "C15.R7", site(f, "grow"),
+                      "inflate continues at the old end with avail_out = the bytes that were added",
+                      "the buffer grows from %s to %s bytes but inflate is told %s bytes are free at offset %s: it writes past the allocation" % (OLD, NEW, avail, OLD),
+                      f.loc(e.node), p.describe(f))
+    if n == 0:
+        raise BrokenAnalysis("_mtbl_decompress_zlib: growth step not recognised")
